@@ -1,3 +1,923 @@
-//! C07 — bounded checks (to be written)
-use crate::ctx::Ctx;
-pub fn run(_ctx: &mut Ctx) {}
+//! C07 — array primitives of the Vec backend meet their element-wise contract.
+//! Oracle: each primitive re-stated from its scalar definition as plain loops over Vec; where the
+//! contract leaves a choice (argsort, component numbering, sparse bincount order) every conforming
+//! answer is accepted.  Generic primitives are exercised over `usize` and over `String`
+//! (a non-Copy element type, derived from the usize input as "s<value>").
+//! Bounds and enumeration rule: see `run`.
+use crate::ctx::{guard, Ctx, Rng};
+use open_hypergraphs::array::vec::*;
+use open_hypergraphs::array::*;
+use serde_json::{json, Value};
+use std::fmt::Debug;
+use std::ops::{Bound, RangeBounds};
+
+type Check = fn(&mut Ctx, &Value);
+const CHECKS: &[(&str, Check)] = &[
+    ("basics", chk_basics),
+    ("ranges", chk_ranges),
+    ("gather", chk_gather),
+    ("scatter", chk_scatter),
+    ("scatter_assign", chk_scatter_assign),
+    ("arith", chk_arith),
+    ("arange", chk_arange),
+    ("segments", chk_segments),
+    ("sorting", chk_sorting),
+    ("counting", chk_counting),
+    ("components", chk_components),
+    ("to_dense", chk_to_dense),
+];
+
+type A = VecArray<usize>;
+type L = VecArray<String>;
+
+fn us(v: &Value) -> Option<Vec<usize>> {
+    v.as_array()?.iter().map(|x| x.as_u64().map(|y| y as usize)).collect()
+}
+fn num(v: &Value) -> Option<usize> {
+    v.as_u64().map(|x| x as usize)
+}
+/// the generic-element twin of a usize array
+fn lab(xs: &[usize]) -> Vec<String> {
+    xs.iter().map(|v| format!("s{}", v)).collect()
+}
+const BIG: usize = 1 << 40;
+fn small(xs: &[usize]) -> bool {
+    xs.len() <= 4096 && xs.iter().all(|&v| v < BIG)
+}
+
+/// the call must return and equal `exp`
+fn want<T: PartialEq + Debug>(ctx: &mut Ctx, chk: &str, clause: &str, what: &str, input: &Value, got: Result<T, String>, exp: &T) {
+    match got {
+        Err(p) => ctx.fail(chk, "C07.no-panic", input, json!(format!("{} panicked: {}", what, p)), json!(format!("{:?}", exp))),
+        Ok(g) => {
+            if &g != exp {
+                ctx.fail(chk, clause, input, json!(format!("{} = {:?}", what, g)), json!(format!("{:?}", exp)));
+            }
+        }
+    }
+}
+
+// ------------------------------------------------------------------------------------------------
+// checks
+// ------------------------------------------------------------------------------------------------
+
+/// input {"xs": [..], "ys": [..], "x": v, "n": len}
+fn chk_basics(ctx: &mut Ctx, input: &Value) {
+    let (xs, ys, x, n) = match (us(&input["xs"]), us(&input["ys"]), num(&input["x"]), num(&input["n"])) {
+        (Some(a), Some(b), Some(x), Some(n)) if small(&a) && small(&b) && n <= 4096 => (a, b, x, n),
+        _ => return,
+    };
+    let c = "basics";
+    ctx.case(c, input, !xs.is_empty() && !ys.is_empty());
+    let cat: Vec<usize> = xs.iter().chain(ys.iter()).cloned().collect();
+    let (ax, ay) = (VecArray(xs.clone()), VecArray(ys.clone()));
+    let (lx, ly) = (VecArray(lab(&xs)), VecArray(lab(&ys)));
+    want(ctx, c, "C07.len", "len", input, guard(|| (Array::len(&ax), Array::is_empty(&ax), Array::len(&lx), Array::is_empty(&lx))), &(xs.len(), xs.is_empty(), xs.len(), xs.is_empty()));
+    want(ctx, c, "C07.empty", "empty", input, guard(|| (<A as Array<VecKind, usize>>::empty().0, <L as Array<VecKind, String>>::empty().0)), &(vec![], vec![]));
+    want(ctx, c, "C07.from-slice", "from_slice", input, guard(|| (A::from_slice(&xs).0, L::from_slice(&lab(&xs)).0)), &(xs.clone(), lab(&xs)));
+    want(ctx, c, "C07.concatenate", "concatenate", input, guard(|| (ax.concatenate(&ay).0, lx.concatenate(&ly).0)), &(cat.clone(), lab(&cat)));
+    want(ctx, c, "C07.concatenate", "concatenate leaves operands unchanged", input, Ok((ax.0.clone(), ay.0.clone())), &(xs.clone(), ys.clone()));
+    want(ctx, c, "C07.equality", "==", input, guard(|| (ax == ay, lx == ly, ax.clone() == ax, lx.clone() == lx)), &(xs == ys, xs == ys, true, true));
+    want(ctx, c, "C07.fill", "fill", input, guard(|| (A::fill(x, n).0, L::fill(format!("s{}", x), n).0)), &(vec![x; n], vec![format!("s{}", x); n]));
+    let each = guard(|| ((0..xs.len()).map(|i| ax.get(i)).collect::<Vec<_>>(), (0..xs.len()).map(|i| lx.get(i)).collect::<Vec<_>>()));
+    want(ctx, c, "C07.get", "get(i) for every i", input, each, &(xs.clone(), lab(&xs)));
+}
+
+fn range_case<R: RangeBounds<usize> + Clone + Debug>(ctx: &mut Ctx, input: &Value, xs: &[usize], r: R, lo: usize, hi: usize) {
+    let c = "ranges";
+    let what = format!("{:?}", r);
+    let ax = VecArray(xs.to_vec());
+    let lx = VecArray(lab(xs));
+    want(ctx, c, "C07.to-range", &format!("to_range({})", what), input, guard(|| ax.to_range(r.clone())), &(lo..hi));
+    want(ctx, c, "C07.to-range", &format!("to_range({}) [generic]", what), input, guard(|| lx.to_range(r.clone())), &(lo..hi));
+    let slice: Vec<usize> = (lo..hi).map(|i| xs[i]).collect();
+    want(ctx, c, "C07.get-range", &format!("get_range({})", what), input, guard(|| (ax.get_range(r.clone()).to_vec(), lx.get_range(r.clone()).to_vec())), &(slice.clone(), lab(&slice)));
+    // set_range: positions lo..hi are overwritten in order, everything else is untouched
+    let vals: Vec<usize> = (0..hi - lo).map(|i| 1000 + i).collect();
+    let mut exp = xs.to_vec();
+    for i in lo..hi {
+        exp[i] = vals[i - lo];
+    }
+    let got = guard(|| {
+        let (mut a, mut l) = (ax.clone(), lx.clone());
+        a.set_range(r.clone(), &VecArray(vals.clone()));
+        l.set_range(r.clone(), &VecArray(lab(&vals)));
+        (a.0, l.0)
+    });
+    want(ctx, c, "C07.set-range", &format!("set_range({})", what), input, got, &(exp.clone(), lab(&exp)));
+}
+
+/// input {"xs": [..], "a": lo, "b": hi} with lo <= hi <= len
+fn chk_ranges(ctx: &mut Ctx, input: &Value) {
+    let (xs, a, b) = match (us(&input["xs"]), num(&input["a"]), num(&input["b"])) {
+        (Some(xs), Some(a), Some(b)) if small(&xs) && a <= b && b <= xs.len() => (xs, a, b),
+        _ => return,
+    };
+    let n = xs.len();
+    ctx.case("ranges", input, a < b && (a > 0 || b < n));
+    range_case(ctx, input, &xs, .., 0, n);
+    range_case(ctx, input, &xs, a.., a, n);
+    range_case(ctx, input, &xs, ..b, 0, b);
+    range_case(ctx, input, &xs, a..b, a, b);
+    range_case(ctx, input, &xs, (Bound::Included(a), Bound::Excluded(b)), a, b);
+    range_case(ctx, input, &xs, (Bound::Included(a), Bound::Unbounded), a, n);
+    range_case(ctx, input, &xs, (Bound::Unbounded, Bound::Excluded(b)), 0, b);
+    if b >= 1 {
+        range_case(ctx, input, &xs, ..=(b - 1), 0, b);
+        range_case(ctx, input, &xs, (Bound::Unbounded, Bound::Included(b - 1)), 0, b);
+        if a < b {
+            range_case(ctx, input, &xs, a..=(b - 1), a, b);
+            range_case(ctx, input, &xs, (Bound::Included(a), Bound::Included(b - 1)), a, b);
+        }
+    }
+    if a >= 1 {
+        range_case(ctx, input, &xs, (Bound::Excluded(a - 1), Bound::Excluded(b)), a, b);
+        range_case(ctx, input, &xs, (Bound::Excluded(a - 1), Bound::Unbounded), a, n);
+        if b > a {
+            range_case(ctx, input, &xs, (Bound::Excluded(a - 1), Bound::Included(b - 1)), a, b);
+        }
+    }
+}
+
+/// input {"xs": [..], "idx": [..]} with idx[i] < len(xs)
+fn chk_gather(ctx: &mut Ctx, input: &Value) {
+    let (xs, idx) = match (us(&input["xs"]), us(&input["idx"])) {
+        (Some(xs), Some(idx)) if small(&xs) && idx.len() <= 4096 && idx.iter().all(|&i| i < xs.len()) => (xs, idx),
+        _ => return,
+    };
+    ctx.case("gather", input, idx.len() > 1);
+    let mut exp = vec![];
+    for &i in &idx {
+        exp.push(xs[i]);
+    }
+    let (ax, lx) = (VecArray(xs.clone()), VecArray(lab(&xs)));
+    want(ctx, "gather", "C07.gather", "gather", input, guard(|| (ax.gather(&idx).0, lx.gather(&idx).0)), &(exp.clone(), lab(&exp)));
+}
+
+/// input {"xs": [..], "idx": [..], "n": size} with len(idx) == len(xs), idx[i] < n
+fn chk_scatter(ctx: &mut Ctx, input: &Value) {
+    let (xs, idx, n) = match (us(&input["xs"]), us(&input["idx"]), num(&input["n"])) {
+        (Some(xs), Some(idx), Some(n)) if small(&xs) && n <= 4096 && idx.len() == xs.len() && idx.iter().all(|&i| i < n) => (xs, idx, n),
+        _ => return,
+    };
+    let c = "scatter";
+    ctx.case(c, input, xs.len() > 1);
+    // x[idx[i]] = self[i], executed for i = 0, 1, ...; positions never written are unspecified
+    let mut exp: Vec<Option<usize>> = vec![None; n];
+    for i in 0..xs.len() {
+        exp[idx[i]] = Some(xs[i]);
+    }
+    // with nothing to scatter there is no element to fill a generic array with: the result is empty
+    let exp_len = if xs.is_empty() { 0 } else { n };
+    let (ax, lx) = (VecArray(xs.clone()), VecArray(lab(&xs)));
+    match guard(|| (ax.scatter(&idx, n).0, lx.scatter(&idx, n).0)) {
+        Err(p) => ctx.fail(c, "C07.no-panic", input, json!(format!("scatter panicked: {}", p)), json!(format!("{:?}", exp))),
+        Ok((g, gl)) => {
+            if g.len() != exp_len || gl.len() != exp_len {
+                return ctx.fail(c, "C07.scatter-len", input, json!({"usize": g, "generic": gl}), json!(exp_len));
+            }
+            if xs.is_empty() {
+                return;
+            }
+            for p in 0..n {
+                if let Some(v) = exp[p] {
+                    if g[p] != v || gl[p] != format!("s{}", v) {
+                        return ctx.fail(c, "C07.scatter", input, json!({"usize": g, "generic": gl}), json!(format!("position {} holds {}; full: {:?}", p, v, exp)));
+                    }
+                }
+            }
+        }
+    }
+}
+
+/// input {"base": [..], "idx": [..], "vals": [..], "c": v} with idx[i] < len(base), len(vals) == len(idx)
+fn chk_scatter_assign(ctx: &mut Ctx, input: &Value) {
+    let (base, idx, vals, cst) = match (us(&input["base"]), us(&input["idx"]), us(&input["vals"]), num(&input["c"])) {
+        (Some(b), Some(i), Some(v), Some(c)) if small(&b) && small(&v) && c < BIG && i.len() == v.len() && i.iter().all(|&k| k < b.len()) => (b, i, v, c),
+        _ => return,
+    };
+    let c = "scatter_assign";
+    ctx.case(c, input, idx.len() > 1);
+    let aidx = VecArray(idx.clone());
+    // self[ixs[i]] = values[i] in order
+    let mut exp = base.clone();
+    for i in 0..idx.len() {
+        exp[idx[i]] = vals[i];
+    }
+    let got = guard(|| {
+        let (mut a, mut l) = (VecArray(base.clone()), VecArray(lab(&base)));
+        a.scatter_assign(&aidx, VecArray(vals.clone()));
+        l.scatter_assign(&aidx, VecArray(lab(&vals)));
+        (a.0, l.0)
+    });
+    want(ctx, c, "C07.scatter-assign", "scatter_assign", input, got, &(exp.clone(), lab(&exp)));
+    // self[ixs] = constant
+    let mut exp = base.clone();
+    for &i in &idx {
+        exp[i] = cst;
+    }
+    let got = guard(|| {
+        let (mut a, mut l) = (VecArray(base.clone()), VecArray(lab(&base)));
+        a.scatter_assign_constant(&aidx, cst);
+        l.scatter_assign_constant(&aidx, format!("s{}", cst));
+        (a.0, l.0)
+    });
+    want(ctx, c, "C07.scatter-assign-constant", "scatter_assign_constant", input, got, &(exp.clone(), lab(&exp)));
+    // self[ixs[i]] -= rhs[i], accumulating over repeated indices; inside the precondition only when nothing underflows
+    let mut exp: Vec<usize> = base.clone();
+    let mut ok = true;
+    for i in 0..idx.len() {
+        match exp[idx[i]].checked_sub(vals[i]) {
+            Some(v) => exp[idx[i]] = v,
+            None => ok = false,
+        }
+    }
+    if ok {
+        let got = guard(|| {
+            let mut a = VecArray(base.clone());
+            a.scatter_sub_assign(&aidx, &VecArray(vals.clone()));
+            a.0
+        });
+        want(ctx, c, "C07.scatter-sub-assign", "scatter_sub_assign", input, got, &exp);
+    }
+}
+
+/// input {"xs": [..], "ys": [..], "c": v, "d": v} with len(xs) == len(ys), d > 0
+fn chk_arith(ctx: &mut Ctx, input: &Value) {
+    let (xs, ys, k, d) = match (us(&input["xs"]), us(&input["ys"]), num(&input["c"]), num(&input["d"])) {
+        (Some(x), Some(y), Some(c), Some(d)) if small(&x) && small(&y) && x.len() == y.len() && c < (1 << 20) && d > 0 && x.iter().all(|&v| v < (1 << 20)) => (x, y, c, d),
+        _ => return,
+    };
+    let c = "arith";
+    ctx.case(c, input, xs.len() > 1);
+    let (ax, ay) = (VecArray(xs.clone()), VecArray(ys.clone()));
+    let n = xs.len();
+    let sum: Vec<usize> = (0..n).map(|i| xs[i] + ys[i]).collect();
+    want(ctx, c, "C07.add", "xs + ys", input, guard(|| (ax.clone() + ay.clone()).0), &sum);
+    want(ctx, c, "C07.sub", "(xs + ys) - ys", input, guard(|| (VecArray(sum.clone()) - ay.clone()).0), &xs);
+    want(ctx, c, "C07.sub", "(xs + ys) - xs", input, guard(|| (VecArray(sum.clone()) - ax.clone()).0), &ys);
+    if (0..n).all(|i| xs[i] >= ys[i]) {
+        want(ctx, c, "C07.sub", "xs - ys", input, guard(|| (ax.clone() - ay.clone()).0), &(0..n).map(|i| xs[i] - ys[i]).collect());
+    }
+    want(ctx, c, "C07.add-constant", "c + &xs", input, guard(|| (k + &ax).0), &xs.iter().map(|&v| k + v).collect());
+    want(ctx, c, "C07.mul-constant-add", "xs.mul_constant_add(c, ys)", input, guard(|| ax.mul_constant_add(k, &ay).0), &(0..n).map(|i| xs[i] * k + ys[i]).collect());
+    let (mut q, mut r) = (vec![], vec![]);
+    for &v in &xs {
+        // the unique (q, r) with v == q*d + r and r < d
+        let mut qq = 0;
+        while (qq + 1) * d <= v {
+            qq += 1;
+        }
+        q.push(qq);
+        r.push(v - qq * d);
+    }
+    want(ctx, c, "C07.quot-rem", "xs.quot_rem(d)", input, guard(|| { let (a, b) = ax.quot_rem(d); (a.0, b.0) }), &(q, r));
+    let mut mx: Option<usize> = None;
+    for &v in &xs {
+        if mx.map_or(true, |m| v > m) {
+            mx = Some(v);
+        }
+    }
+    want(ctx, c, "C07.max", "max", input, guard(|| ax.max()), &mx);
+    let mut cs = vec![0usize];
+    for &v in &xs {
+        cs.push(cs[cs.len() - 1] + v);
+    }
+    want(ctx, c, "C07.sum", "sum", input, guard(|| ax.sum()), &cs[n]);
+    want(ctx, c, "C07.cumulative-sum", "cumulative_sum", input, guard(|| ax.cumulative_sum().0), &cs);
+}
+
+/// input {"start": a, "stop": b} with a <= b
+fn chk_arange(ctx: &mut Ctx, input: &Value) {
+    let (a, b) = match (num(&input["start"]), num(&input["stop"])) {
+        (Some(a), Some(b)) if a <= b && b - a <= 4096 && b < BIG => (a, b),
+        _ => return,
+    };
+    ctx.case("arange", input, a > 0 && b > a);
+    let mut exp = vec![];
+    let mut v = a;
+    while v < b {
+        exp.push(v);
+        v += 1;
+    }
+    want(ctx, "arange", "C07.arange", "arange", input, guard(|| A::arange(&a, &b).0), &exp);
+}
+
+/// input {"counts": [..], "vals": [..], "xs": [..]} with len(vals) == len(counts); xs is used for the
+/// segmented sum when len(xs) == sum(counts)
+fn chk_segments(ctx: &mut Ctx, input: &Value) {
+    let (counts, vals, xs) = match (us(&input["counts"]), us(&input["vals"]), us(&input["xs"])) {
+        (Some(c), Some(v), Some(x)) if small(&c) && small(&v) && small(&x) && c.len() == v.len() && c.iter().sum::<usize>() <= 4096 => (c, v, x),
+        _ => return,
+    };
+    let c = "segments";
+    ctx.case(c, input, counts.len() > 1 && counts.iter().any(|&k| k > 1));
+    let ac = VecArray(counts.clone());
+    let mut rep = vec![];
+    let mut seg = vec![];
+    for i in 0..counts.len() {
+        for j in 0..counts[i] {
+            rep.push(vals[i]);
+            seg.push(j);
+        }
+    }
+    want(ctx, c, "C07.repeat", "counts.repeat(vals)", input, guard(|| ac.repeat(&vals).0), &rep);
+    want(ctx, c, "C07.segmented-arange", "counts.segmented_arange()", input, guard(|| ac.segmented_arange().0), &seg);
+    if xs.len() == counts.iter().sum::<usize>() {
+        let mut sums = vec![];
+        let mut p = 0;
+        for &k in &counts {
+            let mut s = 0;
+            for j in 0..k {
+                s += xs[p + j];
+            }
+            p += k;
+            sums.push(s);
+        }
+        want(ctx, c, "C07.segmented-sum", "counts.segmented_sum(xs)", input, guard(|| ac.segmented_sum(&VecArray(xs.clone())).0), &sums);
+    }
+}
+
+fn is_permutation(p: &[usize], n: usize) -> bool {
+    let mut seen = vec![false; n];
+    p.len() == n && p.iter().all(|&i| i < n && !std::mem::replace(&mut seen[i], true))
+}
+
+/// any order in which the keys are non-decreasing is accepted; within equal keys the values may come
+/// in any order, so compare the sorted (key, value) pairs block by block
+fn conforming_sort_by<T: Ord + Clone + Debug>(vals: &[T], keys: &[T], got: &[T]) -> bool {
+    if got.len() != vals.len() {
+        return false;
+    }
+    let mut pairs: Vec<(T, T)> = keys.iter().cloned().zip(vals.iter().cloned()).collect();
+    // selection sort on the key only
+    for i in 0..pairs.len() {
+        let mut m = i;
+        for j in i + 1..pairs.len() {
+            if pairs[j].0 < pairs[m].0 {
+                m = j;
+            }
+        }
+        pairs.swap(i, m);
+    }
+    let mut i = 0;
+    while i < pairs.len() {
+        let mut j = i;
+        while j < pairs.len() && pairs[j].0 == pairs[i].0 {
+            j += 1;
+        }
+        let mut want: Vec<T> = pairs[i..j].iter().map(|p| p.1.clone()).collect();
+        let mut have: Vec<T> = got[i..j].to_vec();
+        want.sort();
+        have.sort();
+        if want != have {
+            return false;
+        }
+        i = j;
+    }
+    true
+}
+
+/// input {"xs": [..], "keys": [..]} (keys used for sort_by when len(keys) == len(xs))
+fn chk_sorting(ctx: &mut Ctx, input: &Value) {
+    let (xs, keys) = match (us(&input["xs"]), us(&input["keys"])) {
+        (Some(x), Some(k)) if small(&x) && small(&k) => (x, k),
+        _ => return,
+    };
+    let c = "sorting";
+    ctx.case(c, input, xs.len() > 2 && xs.windows(2).any(|w| w[0] > w[1]));
+    let (ax, lx) = (VecArray(xs.clone()), VecArray(lab(&xs)));
+    let ls = lab(&xs);
+    match guard(|| (ax.argsort().0, lx.argsort().0)) {
+        Err(p) => ctx.fail(c, "C07.no-panic", input, json!(format!("argsort panicked: {}", p)), json!("a sorting permutation")),
+        Ok((p, pl)) => {
+            if !is_permutation(&p, xs.len()) || !is_permutation(&pl, xs.len()) {
+                ctx.fail(c, "C07.argsort-permutation", input, json!({"usize": p, "generic": pl}), json!(format!("a permutation of 0..{}", xs.len())));
+            } else if p.windows(2).any(|w| xs[w[0]] > xs[w[1]]) || pl.windows(2).any(|w| ls[w[0]] > ls[w[1]]) {
+                ctx.fail(c, "C07.argsort-sorts", input, json!({"usize": p, "generic": pl}), json!("gathering by the result is non-decreasing"));
+            }
+        }
+    }
+    if keys.len() == xs.len() {
+        let (ak, lk) = (VecArray(keys.clone()), VecArray(lab(&keys)));
+        match guard(|| (ax.sort_by(&ak).0, lx.sort_by(&lk).0)) {
+            Err(p) => ctx.fail(c, "C07.no-panic", input, json!(format!("sort_by panicked: {}", p)), json!("values ordered by key")),
+            Ok((g, gl)) => {
+                if !conforming_sort_by(&xs, &keys, &g) || !conforming_sort_by(&ls, &lab(&keys), &gl) {
+                    ctx.fail(c, "C07.sort-by", input, json!({"usize": g, "generic": gl}), json!("the values rearranged so that their keys are non-decreasing"));
+                }
+            }
+        }
+    }
+}
+
+/// input {"xs": [..], "size": n} (bincount when every x < size)
+fn chk_counting(ctx: &mut Ctx, input: &Value) {
+    let (xs, size) = match (us(&input["xs"]), num(&input["size"])) {
+        (Some(x), Some(s)) if small(&x) && s <= 4096 => (x, s),
+        _ => return,
+    };
+    let c = "counting";
+    ctx.case(c, input, xs.len() > 1);
+    let ax = VecArray(xs.clone());
+    if xs.iter().all(|&v| v < size) {
+        let mut exp = vec![];
+        for v in 0..size {
+            exp.push(xs.iter().filter(|&&x| x == v).count());
+        }
+        want(ctx, c, "C07.bincount", "bincount", input, guard(|| ax.bincount(size).0), &exp);
+    }
+    match guard(|| ax.sparse_bincount()) {
+        Err(p) => ctx.fail(c, "C07.no-panic", input, json!(format!("sparse_bincount panicked: {}", p)), json!("(values, counts)")),
+        Ok((u, k)) => {
+            let (u, k) = (u.0, k.0);
+            let mut ok = u.len() == k.len();
+            // each listed value occurs, is listed once, and carries its number of occurrences
+            for i in 0..u.len().min(k.len()) {
+                ok &= k[i] > 0 && xs.iter().filter(|&&x| x == u[i]).count() == k[i];
+                ok &= !u[..i].contains(&u[i]);
+            }
+            // each occurring value is listed
+            ok &= xs.iter().all(|x| u.contains(x));
+            if !ok {
+                ctx.fail(c, "C07.sparse-bincount", input, json!({"values": u, "counts": k}), json!("each occurring value once, with its count"));
+            }
+        }
+    }
+    let mut z = vec![];
+    for i in 0..xs.len() {
+        if xs[i] == 0 {
+            z.push(i);
+        }
+    }
+    want(ctx, c, "C07.zero", "zero", input, guard(|| ax.zero().0), &z);
+}
+
+/// label[u] == label[v] iff u and v are joined by a chain of edges (naive fixpoint)
+fn o_closure(n: usize, a: &[usize], b: &[usize]) -> Vec<usize> {
+    let mut lab: Vec<usize> = (0..n).collect();
+    loop {
+        let mut changed = false;
+        for i in 0..a.len() {
+            let m = lab[a[i]].min(lab[b[i]]);
+            if lab[a[i]] != m || lab[b[i]] != m {
+                lab[a[i]] = m;
+                lab[b[i]] = m;
+                changed = true;
+            }
+        }
+        if !changed {
+            return lab;
+        }
+    }
+}
+
+/// a dense numbering 0..k with `same` deciding which positions share a number
+fn dense_numbering_violation(got: &[usize], k: usize, classes: &[usize]) -> Option<String> {
+    let n = classes.len();
+    if got.len() != n {
+        return Some(format!("{} labels for {} positions", got.len(), n));
+    }
+    if let Some(v) = got.iter().find(|&&v| v >= k) {
+        return Some(format!("label {} is not below the reported count {}", v, k));
+    }
+    if let Some(cl) = (0..k).find(|cl| !got.contains(cl)) {
+        return Some(format!("number {} of 0..{} is unused", cl, k));
+    }
+    for u in 0..n {
+        for v in 0..u {
+            if (got[u] == got[v]) != (classes[u] == classes[v]) {
+                return Some(format!("positions {} and {}: together = {}, expected {}", v, u, got[u] == got[v], classes[u] == classes[v]));
+            }
+        }
+    }
+    None
+}
+
+/// input {"s": [..], "t": [..], "n": nodes} with len(s) == len(t), entries < n
+fn chk_components(ctx: &mut Ctx, input: &Value) {
+    let (s, t, n) = match (us(&input["s"]), us(&input["t"]), num(&input["n"])) {
+        (Some(s), Some(t), Some(n)) if n <= 512 && s.len() <= 4096 && s.len() == t.len() && s.iter().chain(t.iter()).all(|&v| v < n) => (s, t, n),
+        _ => return,
+    };
+    let c = "components";
+    let classes = o_closure(n, &s, &t);
+    let merged = (0..n).any(|u| classes[u] != u);
+    ctx.case(c, input, merged && (0..n).any(|u| classes[u] != classes[0]));
+    let (asrc, atgt) = (VecArray(s.clone()), VecArray(t.clone()));
+    let calls: [(&str, Result<(Vec<usize>, usize), String>); 2] = [
+        ("NaturalArray::connected_components", guard(|| { let (l, k) = <A as NaturalArray<VecKind>>::connected_components(&asrc, &atgt, n); (l.0, k) })),
+        ("vec::connected_components", guard(|| connected_components(&s, &t, n))),
+    ];
+    for (what, got) in calls {
+        match got {
+            Err(p) => ctx.fail(c, "C07.no-panic", input, json!(format!("{} panicked: {}", what, p)), json!(classes)),
+            Ok((l, k)) => {
+                if let Some(why) = dense_numbering_violation(&l, k, &classes) {
+                    let clause = if why.contains("together = true") { "C07.components-apart" } else if why.contains("together = false") { "C07.components-together" } else { "C07.components-dense" };
+                    ctx.fail(c, clause, input, json!({"call": what, "labels": l, "count": k, "why": why}), json!({"classes": classes}));
+                }
+            }
+        }
+    }
+}
+
+/// input {"xs": [..]}
+fn chk_to_dense(ctx: &mut Ctx, input: &Value) {
+    let xs = match us(&input["xs"]) {
+        Some(x) if x.len() <= 512 => x,
+        _ => return,
+    };
+    ctx.case("to_dense", input, xs.len() > 2);
+    match guard(|| to_dense(&xs)) {
+        Err(p) => ctx.fail("to_dense", "C07.no-panic", input, json!(format!("to_dense panicked: {}", p)), json!("a dense renumbering")),
+        Ok((l, k)) => {
+            if let Some(why) = dense_numbering_violation(&l, k, &xs) {
+                ctx.fail("to_dense", "C07.to-dense", input, json!({"labels": l, "count": k, "why": why}), json!("equal entries get equal numbers, distinct entries distinct numbers, numbers are exactly 0..k"));
+            }
+        }
+    }
+}
+
+// ------------------------------------------------------------------------------------------------
+// generators
+// ------------------------------------------------------------------------------------------------
+fn all_tables(len: usize, n: usize) -> Vec<Vec<usize>> {
+    let mut out = vec![vec![]];
+    for _ in 0..len {
+        let mut next = vec![];
+        for t in &out {
+            for v in 0..n {
+                let mut t2 = t.clone();
+                t2.push(v);
+                next.push(t2);
+            }
+        }
+        out = next;
+    }
+    out
+}
+fn all_arrays(max_len: usize, n: usize) -> Vec<Vec<usize>> {
+    (0..=max_len).flat_map(|l| all_tables(l, n)).collect()
+}
+fn corner_arrays() -> Vec<Vec<usize>> {
+    vec![
+        vec![],
+        vec![0],
+        vec![7],
+        vec![0, 0, 0],
+        vec![1, 2, 3],
+        vec![3, 2, 1],
+        vec![2, 2, 2, 2],
+        vec![0, 1, 0, 2, 0, 3],
+        vec![5, 0, 0],
+        vec![0, 0, 5],
+        vec![1000, 3, 1000, 0, 999],
+        vec![1, 1, 2, 2, 1, 1],
+        vec![9, 8, 7, 6, 5, 4, 3, 2, 1, 0],
+        vec![0, 1, 2, 3, 4, 5, 6, 7, 8, 9],
+        vec![4, 4, 0, 4, 4, 0, 4],
+    ]
+}
+fn rand_array(r: &mut Rng, max_len: usize, n: usize) -> Vec<usize> {
+    let len = r.below(max_len + 1);
+    r.vec_below(len, n)
+}
+fn shuffled(r: &mut Rng, n: usize) -> Vec<usize> {
+    let mut t: Vec<usize> = (0..n).collect();
+    for i in (1..n).rev() {
+        let j = r.below(i + 1);
+        t.swap(i, j);
+    }
+    t
+}
+/// merges two groups of 2^k nodes in binomial-tree order (always two equally large trees), through
+/// arbitrary members; optionally joins the two groups at the end
+fn binomial_edges(r: &mut Rng, k: usize, join: bool, random_members: bool) -> (Vec<usize>, Vec<usize>, usize) {
+    let m = 1usize << k;
+    let (mut a, mut b) = (vec![], vec![]);
+    for base in [0, m] {
+        for d in 0..k {
+            let half = 1usize << d;
+            let mut start = base;
+            while start < base + m {
+                let (x, y) = if random_members { (start + r.below(half), start + half + r.below(half)) } else { (start + half - 1, start + 2 * half - 1) };
+                if r.chance(1, 2) {
+                    a.push(x);
+                    b.push(y);
+                } else {
+                    a.push(y);
+                    b.push(x);
+                }
+                start += 2 * half;
+            }
+        }
+    }
+    if join {
+        a.push(m - 1);
+        b.push(2 * m - 1);
+    }
+    (a, b, 2 * m)
+}
+
+pub fn run(ctx: &mut Ctx) {
+    if let Some((name, input)) = ctx.replay.clone() {
+        for (n, c) in CHECKS {
+            if *n == name {
+                c(ctx, &input);
+            }
+        }
+        return;
+    }
+    let corners = corner_arrays();
+    let tiny = all_arrays(3, 3); // 40 arrays
+    let thorough = ctx.thorough();
+
+    // ---- basics: corner x corner, tiny x tiny
+    for (i, xs) in corners.iter().enumerate() {
+        for (j, ys) in corners.iter().enumerate() {
+            chk_basics(ctx, &json!({"xs": xs, "ys": ys, "x": i, "n": j % 4}));
+        }
+    }
+    for xs in &tiny {
+        for ys in &tiny {
+            chk_basics(ctx, &json!({"xs": xs, "ys": ys, "x": xs.len(), "n": ys.len()}));
+        }
+    }
+    for _ in 0..ctx.budget(2500, 200000) {
+        let (xs, ys) = (rand_array(&mut ctx.rng, 9, 50), rand_array(&mut ctx.rng, 9, 50));
+        let v = json!({"xs": xs, "ys": ys, "x": ctx.rng.below(100), "n": ctx.rng.below(12)});
+        chk_basics(ctx, &v);
+    }
+
+    // ---- ranges: every 0 <= a <= b <= n for n <= 7, in all range forms
+    for n in 0..=7usize {
+        let xs: Vec<usize> = (0..n).map(|i| 10 + 3 * i).collect();
+        for a in 0..=n {
+            for b in a..=n {
+                chk_ranges(ctx, &json!({"xs": xs, "a": a, "b": b}));
+            }
+        }
+    }
+    for _ in 0..ctx.budget(1500, 100000) {
+        let xs = rand_array(&mut ctx.rng, 12, 50);
+        let b = ctx.rng.below(xs.len() + 1);
+        let a = ctx.rng.below(b + 1);
+        chk_ranges(ctx, &json!({"xs": xs, "a": a, "b": b}));
+    }
+
+    // ---- gather: every index table of length <= 3 (<= 4 thorough) into arrays of length <= 4
+    for n in 0..=4usize {
+        let xs: Vec<usize> = (0..n).map(|i| 20 + 7 * i).collect();
+        for len in 0..=(if thorough { 4 } else { 3 }) {
+            if n == 0 && len > 0 {
+                continue;
+            }
+            for idx in all_tables(len, n) {
+                chk_gather(ctx, &json!({"xs": xs, "idx": idx}));
+            }
+        }
+    }
+    for xs in &corners {
+        if !xs.is_empty() {
+            let n = xs.len();
+            chk_gather(ctx, &json!({"xs": xs, "idx": (0..n).rev().collect::<Vec<_>>()}));
+            chk_gather(ctx, &json!({"xs": xs, "idx": vec![n - 1; 3 * n]}));
+            chk_gather(ctx, &json!({"xs": xs, "idx": Vec::<usize>::new()}));
+        }
+    }
+    for _ in 0..ctx.budget(4000, 400000) {
+        let n = ctx.rng.range(1, 9);
+        let xs = ctx.rng.vec_below(n, 30);
+        let len = ctx.rng.below(2 * n + 2);
+        let idx = ctx.rng.vec_below(len, n);
+        chk_gather(ctx, &json!({"xs": xs, "idx": idx}));
+    }
+
+    // ---- scatter: every index table of length <= 3 (<= 4) into n <= 4 (distinct values, so that the
+    //      winner among repeated indices is visible), plus larger n than needed
+    for len in 0..=(if thorough { 4usize } else { 3 }) {
+        let xs: Vec<usize> = (0..len).map(|i| 20 + 7 * i).collect();
+        for n in 0..=4usize {
+            if n == 0 && len > 0 {
+                continue;
+            }
+            for idx in all_tables(len, n) {
+                chk_scatter(ctx, &json!({"xs": xs, "idx": idx, "n": n}));
+            }
+        }
+    }
+    chk_scatter(ctx, &json!({"xs": [], "idx": [], "n": 0}));
+    chk_scatter(ctx, &json!({"xs": [], "idx": [], "n": 5}));
+    chk_scatter(ctx, &json!({"xs": [0, 2, 1, 2], "idx": [2, 1, 0, 2], "n": 3}));
+    for _ in 0..ctx.budget(4000, 400000) {
+        let n = ctx.rng.range(1, 9);
+        let len = ctx.rng.below(2 * n + 2);
+        let xs = if ctx.rng.chance(1, 2) { shuffled(&mut ctx.rng, len) } else { ctx.rng.vec_below(len, 5) };
+        // surjective index tables (permutations / with repeats) half of the time
+        let idx = if len >= n && ctx.rng.chance(1, 2) {
+            let mut t = shuffled(&mut ctx.rng, n);
+            for _ in n..len {
+                t.push(ctx.rng.below(n));
+            }
+            let p = shuffled(&mut ctx.rng, len);
+            p.iter().map(|&i| t[i]).collect()
+        } else {
+            ctx.rng.vec_below(len, n)
+        };
+        chk_scatter(ctx, &json!({"xs": xs, "idx": idx, "n": n}));
+    }
+
+    // ---- scatter-assign forms: every index table of length <= 3 into a base of length <= 3
+    for n in 0..=3usize {
+        let base: Vec<usize> = (0..n).map(|i| 50 + i).collect();
+        for len in 0..=3usize {
+            if n == 0 && len > 0 {
+                continue;
+            }
+            let vals: Vec<usize> = (0..len).map(|i| 3 + 2 * i).collect();
+            for idx in all_tables(len, n) {
+                chk_scatter_assign(ctx, &json!({"base": base, "idx": idx, "vals": vals, "c": 9}));
+            }
+        }
+    }
+    chk_scatter_assign(ctx, &json!({"base": [0, 1, 2, 3, 4, 5], "idx": [0, 2, 4], "vals": [1, 1, 1], "c": 10}));
+    chk_scatter_assign(ctx, &json!({"base": [10, 10], "idx": [1, 1, 1, 1, 1], "vals": [2, 2, 2, 2, 2], "c": 0}));
+    chk_scatter_assign(ctx, &json!({"base": [3, 0], "idx": [0, 0, 0], "vals": [1, 1, 1], "c": 0}));
+    for _ in 0..ctx.budget(4000, 400000) {
+        let n = ctx.rng.range(1, 8);
+        let len = ctx.rng.below(2 * n + 2);
+        let idx = ctx.rng.vec_below(len, n);
+        let vals = ctx.rng.vec_below(len, 6);
+        // large enough bases half of the time so that repeated subtraction stays inside the precondition
+        let lo = if ctx.rng.chance(1, 2) { 6 * len } else { 0 };
+        let base: Vec<usize> = (0..n).map(|_| lo + ctx.rng.below(8)).collect();
+        let v = json!({"base": base, "idx": idx, "vals": vals, "c": ctx.rng.below(20)});
+        chk_scatter_assign(ctx, &v);
+    }
+
+    // ---- arithmetic, max, sums
+    for xs in &tiny {
+        let ys: Vec<usize> = xs.iter().enumerate().map(|(i, &v)| (v + i) % 3).collect();
+        for (k, d) in [(0usize, 1usize), (1, 2), (3, 3)] {
+            chk_arith(ctx, &json!({"xs": xs, "ys": ys, "c": k, "d": d}));
+        }
+    }
+    for xs in &corners {
+        let ys: Vec<usize> = xs.iter().rev().cloned().collect();
+        for (k, d) in [(0usize, 1usize), (2, 1000), (7, 4), (1, 1001)] {
+            chk_arith(ctx, &json!({"xs": xs, "ys": ys, "c": k, "d": d}));
+        }
+    }
+    for _ in 0..ctx.budget(4000, 400000) {
+        let len = ctx.rng.below(10);
+        let m = if ctx.rng.chance(1, 4) { 1000 } else { 12 };
+        let xs = ctx.rng.vec_below(len, m);
+        let ys = ctx.rng.vec_below(len, m);
+        let v = json!({"xs": xs, "ys": ys, "c": ctx.rng.below(9), "d": ctx.rng.range(1, 13)});
+        chk_arith(ctx, &v);
+    }
+
+    // ---- arange: all 0 <= start <= stop <= 8
+    for a in 0..=8usize {
+        for b in a..=8 {
+            chk_arange(ctx, &json!({"start": a, "stop": b}));
+        }
+    }
+    chk_arange(ctx, &json!({"start": 1000, "stop": 1003}));
+    chk_arange(ctx, &json!({"start": 1000, "stop": 1000}));
+
+    // ---- repeat / segmented arange / segmented sum: all count arrays of length <= 4 with entries <= 2
+    //      (<= 3 thorough); zero-sized segments first, last, adjacent, everywhere
+    let seg = |ctx: &mut Ctx, counts: &[usize]| {
+        let vals: Vec<usize> = (0..counts.len()).map(|i| 5 + 2 * i).collect();
+        let total: usize = counts.iter().sum();
+        let xs: Vec<usize> = (0..total).map(|i| 1 + (i * 7) % 5).collect();
+        chk_segments(ctx, &json!({"counts": counts, "vals": vals, "xs": xs}));
+    };
+    for counts in all_arrays(4, if thorough { 4 } else { 3 }) {
+        seg(ctx, &counts);
+    }
+    for counts in [vec![2usize, 3, 0, 5], vec![0, 0, 0, 0, 0], vec![1, 2, 0], vec![0, 7], vec![7, 0], vec![0, 0, 3, 0, 0, 2, 0], vec![1; 12], vec![12], vec![2, 4]] {
+        seg(ctx, &counts);
+    }
+    chk_segments(ctx, &json!({"counts": [2, 4], "vals": [0, 0], "xs": [1, 2, 3, 4, 5, 6]}));
+    chk_segments(ctx, &json!({"counts": [1, 2, 0], "vals": [0, 0, 0], "xs": [1, 2, 3]}));
+    for _ in 0..ctx.budget(4000, 400000) {
+        let len = ctx.rng.below(8);
+        let counts: Vec<usize> = (0..len).map(|_| if ctx.rng.chance(1, 3) { 0 } else { ctx.rng.below(5) }).collect();
+        let vals = ctx.rng.vec_below(len, 40);
+        let total: usize = counts.iter().sum();
+        let xs = ctx.rng.vec_below(total, 30);
+        chk_segments(ctx, &json!({"counts": counts, "vals": vals, "xs": xs}));
+    }
+
+    // ---- argsort / sort_by: all arrays of length <= 4 with entries <= 2 (<= 5, <= 3 thorough)
+    for xs in all_arrays(if thorough { 5 } else { 4 }, 3).iter().chain(corners.iter()) {
+        let keys: Vec<usize> = xs.iter().enumerate().map(|(i, &v)| (v * 2 + i) % 3).collect();
+        chk_sorting(ctx, &json!({"xs": xs, "keys": keys}));
+        chk_sorting(ctx, &json!({"xs": (0..xs.len()).map(|i| 10 * (i + 1)).collect::<Vec<_>>(), "keys": xs}));
+    }
+    chk_sorting(ctx, &json!({"xs": [10, 20, 30, 40], "keys": [3, 1, 0, 2]}));
+    for _ in 0..ctx.budget(4000, 400000) {
+        let len = ctx.rng.below(12);
+        let m = if ctx.rng.chance(1, 2) { 4 } else { 200 };
+        let xs = ctx.rng.vec_below(len, m);
+        let keys = if ctx.rng.chance(1, 3) { shuffled(&mut ctx.rng, len) } else { ctx.rng.vec_below(len, m) };
+        chk_sorting(ctx, &json!({"xs": xs, "keys": keys}));
+    }
+
+    // ---- bincount / sparse bincount / zero
+    for xs in all_arrays(4, 3).iter().chain(corners.iter()) {
+        let m = xs.iter().max().map_or(0, |m| m + 1);
+        for size in [m, m + 1, m + 3] {
+            chk_counting(ctx, &json!({"xs": xs, "size": size}));
+        }
+    }
+    chk_counting(ctx, &json!({"xs": [], "size": 0}));
+    chk_counting(ctx, &json!({"xs": [0, 3, 1, 3, 0, 3, 3], "size": 4}));
+    for _ in 0..ctx.budget(4000, 400000) {
+        let len = ctx.rng.below(14);
+        let m = if ctx.rng.chance(1, 3) { 500 } else { 5 };
+        let xs = ctx.rng.vec_below(len, m);
+        let size = xs.iter().max().map_or(0, |m| m + 1) + ctx.rng.below(3);
+        chk_counting(ctx, &json!({"xs": xs, "size": size}));
+        chk_to_dense(ctx, &json!({"xs": xs}));
+    }
+    for xs in all_arrays(4, 3).iter().chain(corners.iter()) {
+        chk_to_dense(ctx, &json!({"xs": xs}));
+    }
+    chk_to_dense(ctx, &json!({"xs": [0, 2, 5, 5, 7]}));
+
+    // ---- connected components: every edge list with <= 3 edges over n <= 4 nodes (<= 2 edges over 5)
+    let cc = |ctx: &mut Ctx, s: &[usize], t: &[usize], n: usize| chk_components(ctx, &json!({"s": s, "t": t, "n": n}));
+    for n in 0..=5usize {
+        let max_e = if n <= 3 { 4 } else if n == 4 { 3 } else { 2 };
+        for e in 0..=max_e {
+            if n == 0 && e > 0 {
+                continue;
+            }
+            let ends = all_tables(e, n);
+            for s in &ends {
+                for t in &ends {
+                    cc(ctx, s, t, n);
+                }
+            }
+        }
+    }
+    for m in [2usize, 3, 5, 8, 17, 40, 100] {
+        let fwd: Vec<usize> = (0..m - 1).collect();
+        let nxt: Vec<usize> = (1..m).collect();
+        let rev: Vec<usize> = fwd.iter().rev().cloned().collect();
+        let rnx: Vec<usize> = nxt.iter().rev().cloned().collect();
+        cc(ctx, &fwd, &nxt, m); // path
+        cc(ctx, &nxt, &fwd, m); // path, edges flipped
+        cc(ctx, &rev, &rnx, m); // path, far end first
+        cc(ctx, &fwd, &nxt, m + 2); // path and two isolated nodes
+        cc(ctx, &vec![m - 1; m - 1], &fwd, m); // star
+        cc(ctx, &(0..m).collect::<Vec<_>>(), &(0..m).collect::<Vec<_>>(), m); // self loops only
+        cc(ctx, &[], &[], m); // no edges
+        cc(ctx, &vec![0; 3 * m], &vec![1; 3 * m], m); // one edge repeated more often than there are nodes
+        cc(ctx, &(0..m).collect::<Vec<_>>(), &(0..m).map(|i| (i + 2) % m).collect::<Vec<_>>(), m); // one or two rings
+        if m >= 4 {
+            cc(ctx, &(0..m - 2).collect::<Vec<_>>(), &(2..m).collect::<Vec<_>>(), m); // two interleaved paths
+        }
+    }
+    for k in [1usize, 2, 3, 4, 5, 6] {
+        for join in [false, true] {
+            for random_members in [false, true] {
+                for _ in 0..(if random_members { 4 } else { 1 }) {
+                    let (a, b, n) = binomial_edges(&mut ctx.rng, k, join, random_members);
+                    cc(ctx, &a, &b, n);
+                    cc(ctx, &a, &b, n + 1);
+                }
+            }
+        }
+    }
+    for i in 0..ctx.budget(20000, 1000000) {
+        let n = ctx.rng.range(1, 12);
+        let e = if i % 5 == 0 { ctx.rng.range(n, 2 * n + 2) } else { ctx.rng.below(n) };
+        let mut s = ctx.rng.vec_below(e, n);
+        let mut t = ctx.rng.vec_below(e, n);
+        if i % 7 == 0 && e > 0 {
+            // repeat one edge and add a self loop
+            s.push(s[0]);
+            t.push(t[0]);
+            s.push(t[0]);
+            t.push(t[0]);
+        }
+        cc(ctx, &s, &t, n);
+    }
+
+    ctx.notes.push(
+        "rule: inputs are plain usize arrays (the generic twin is the String array \"s<value>\"). exhaustive: basics on all pairs of arrays len<=3 entries<=2; ranges on every 0<=a<=b<=n, n<=7, \
+         in the forms .., a.., ..b, a..b, ..=b-1, a..=b-1 and the (Bound,Bound) forms incl. excluded start; gather/scatter/scatter-assign on every index table of length<=3 (4 thorough) over sizes<=4; \
+         arange on 0<=start<=stop<=8; repeat/segmented arange/segmented sum on all size arrays len<=4 entries<=2 (3 thorough); argsort/sort_by on all arrays len<=4 (5 thorough) entries<=2; \
+         bincount/sparse bincount/zero/to_dense on all arrays len<=4 entries<=2; connected components on every edge list with <=4 edges over <=3 nodes, <=3 edges over 4 nodes, <=2 edges over 5 nodes, \
+         paths/stars/rings/self-loops/repeated edges up to 100 nodes, binomial-tree merges of 2x2^k nodes k<=6 (32+32 and 64+64). random: lengths<=14, values<=1000, graphs n<=12 with up to 2n+2 edges. \
+         non-trivial = more than one element processed (per check: index list longer than 1, array longer than 1/2, unsorted input for sorting, components with a merge and at least two classes). \
+         accepted freedom: argsort any sorting permutation; sort_by any order within equal keys; component/to_dense labels any dense numbering; sparse bincount any order; scatter positions never written unspecified, \
+         scatter of an empty array returns the empty array."
+            .into(),
+    );
+}
